@@ -572,6 +572,15 @@ func hostileSpecials() []genFile {
 			c := append([]byte{0xFF, 0xD8}, sof(m, good[:n])...)
 			c = append(c, 0xFF, 0xD9)
 			out = append(out, genFile{fmt.Sprintf("jpeg SOF%x with %d payload bytes", m, n), c, imggen.Truth{Format: "JPEG"}})
+			// the short SOF behind a complete one-chunk profile, and behind the first of two chunks
+			// (a profile half assembled when the frame header turns out to be unusable)
+			for _, total := range []int{1, 2} {
+				seg := imggen.ICCChunkSeg(1, total, []byte("profile bytes"))
+				d := append([]byte{0xFF, 0xD8, 0xFF, seg.Marker, byte((len(seg.Payload) + 2) >> 8), byte(len(seg.Payload) + 2)}, seg.Payload...)
+				d = append(d, sof(m, good[:n])...)
+				d = append(d, 0xFF, 0xD9)
+				out = append(out, genFile{fmt.Sprintf("jpeg ICC chunk 1 of %d then SOF%x with %d payload bytes", total, m, n), d, imggen.Truth{Format: "JPEG"}})
+			}
 		}
 	}
 	// segment length fields 0 and 1
